@@ -35,8 +35,11 @@ CHECKS = [
     chk("C11", "proof",
         "Deductive proof that PowerManagingActor._calculate_target_power returns stored regular target + stored operating-point "
         "target, inside the system inclusion bounds, in all three branches, against the proved contract of "
-        "Matryoshka.calculate_target_power (None = unchanged). Found and repaired a genuine defect (fix: commit in /repo).",
-        REALS + "; event-sequence quantifier carried by a class invariant required and proved preserved; sending (one Request per non-None result) not yet under contract",
+        "Matryoshka.calculate_target_power (None = unchanged); _send_updated_target_power sends exactly that value; the event loop "
+        "_run sends requests only through that path (a PartialFailure triggers one recomputation, never a re-send) and the expiry "
+        "timer's drop_old_proposals keeps buckets and stored targets. Found and repaired a genuine defect (fix: commit in /repo).",
+        REALS + "; event-sequence quantifier carried by a class invariant required and proved preserved; frequenz.channels select/Timer "
+        "assumed; one component group and one priority (structural bound); the bounds-tracker task and _send_reports not under contract",
         "contract-based deductive verification (z3), modular over Matryoshka's contracts", "DESIGN.md 3 (C11)"),
     chk("C13", "proof",
         "Deductive proof in IEEE-754 binary64 (z3 FloatingPoint) that every formula step pops/pushes exactly as documented, "
@@ -94,8 +97,9 @@ CHECKS = [
         "group, one fixed topology for PowerBoundsCalculator; all numeric data unbounded; floats as reals",
         "contract-based deductive verification (z3, LRA), structural bound on topology", "DESIGN.md 3 (C17)"),
     chk("C14", "proof",
-        "Deductive proof of the request scheduler as atomic steps: a distribution is started only when none is in flight for the "
-        "group (precondition of _process_request, an obligation at both call sites); arrivals for a busy group are parked and the "
+        "Deductive proof of the request scheduler as atomic steps: an arriving request starts a distribution only for a group with no "
+        "registered task at all (a finished task whose done-callback is still pending counts as busy), a completion starts the parked "
+        "one (preconditions of _process_request, obligations at both call sites); arrivals for a busy group are parked and the "
         "parked request is always the latest (loop invariant over the request stream with a ghost map); at completion - normal or "
         "exceptional - the parked request starts at once; other groups are never touched.",
         "asyncio.create_task / done-callback behaviour assumed (callback exactly once after completion); two disjoint groups; "
@@ -114,8 +118,8 @@ CHECKS = [
         "Exception while the limit allows, never after return / cancellation / other BaseException), of start()'s idempotence, "
         "cancel() and stop() - stop() under interference at its awaits (a task added meanwhile). One genuine defect is recorded as "
         "a known finding (stop() returns while a task added during the wait is still running) with a native witness.",
-        "asyncio task model assumed; run logic is a scripted collaborator; interference bounded to one added task; run(*actors), wait() "
-        "alone, cancel_and_await not under contract",
+        "asyncio task model assumed (incl. wait(FIRST_COMPLETED)); run logic is a scripted collaborator; interference bounded to one added "
+        "task; run(*actors) for two actors; the restart delay is the actor's own RESTART_DELAY; wait() alone, cancel_and_await not under contract",
         "contract-based deductive verification with loop invariant, exception-outcome model and rely (interference) at awaits (z3)",
         "DESIGN.md 3 (C10)"),
     chk("C19", "proof",
@@ -139,9 +143,11 @@ CHECKS = [
         "Two parts, reported separately in the evidence. Proved deductively: the slot arithmetic (normalize_timestamp = nearest grid "
         "slot with ties to even, wrap = slot mod capacity). Bounded only (labelled, not counted as proved): the real OrderedRingBuffer "
         "against an abstract sliding time-indexed map over all update histories of a small scope plus seeded random longer ones, "
-        "including datetime/index window queries. The bounded part found two genuine window() defects, repaired by one fix: commit.",
-        "gap-list maintenance and window assembly are outside the verifier's subset (in-place mutation of aliased objects, numpy): only "
-        "the stated bounded scope is covered for them; MovingWindow wrappers not covered; even-microsecond periods for the proof",
+        "including datetime/index window queries, and the real MovingWindow (alignment on and off the epoch grid, at(), window(), "
+        "oldest/newest) against the same map. The bounded part found genuine defects in window() and MovingWindow.at(), repaired by "
+        "two fix: commits.",
+        "gap-list maintenance, window assembly and MovingWindow are outside the verifier's subset (in-place mutation of aliased objects, "
+        "numpy, tasks): only the stated bounded scope is covered for them; even-microsecond periods for the proof",
         "contract-based deductive verification of the index arithmetic + bounded native exploration of the real class (stand-in)",
         "DESIGN.md 3 (C09)"),
     chk("C05", "exploration",
